@@ -358,3 +358,108 @@ def re_char_not(chars):
 def re_chars(chars):
     parts = [z3.Re(strval(c)) for c in chars]
     return parts[0] if len(parts) == 1 else z3.Union(*parts)
+
+
+# ----------------------------------------------------------------------------- abstract lists of strings
+
+SEQ_STR = z3.SeqSort(z3.StringSort())
+F_splitlines = z3.Function("py_splitlines", _S, SEQ_STR)
+F_map_utf8dec = z3.Function("map_utf8_decode", SEQ_STR, SEQ_STR)
+F_all_utf8ok = z3.Function("all_utf8_valid", SEQ_STR, z3.BoolSort())
+_JOIN_FUNCS = {}
+F_seq_elem = z3.Function("list_elem", SEQ_STR, _I, _S)
+
+
+class SSeq(Sym):
+    """list of str/bytes of symbolic length (z3 Seq(String)); elements all str or all bytes"""
+    pytype = list
+
+    def __init__(self, t, elem_bytes):
+        self.t = t
+        self.elem_bytes = elem_bytes
+
+    def __repr__(self):
+        return "SSeq(%s)" % self.t
+
+    def __pyvc_len__(self, ip):
+        return mkint(z3.Length(self.t))
+
+    def __pyvc_truth__(self):
+        return mkbool(z3.Length(self.t) > 0)
+
+    def __pyvc_getitem__(self, ip, key):
+        n = z3.Length(self.t)
+        if isinstance(key, slice):
+            if key.step is not None:
+                raise Unsupported("slice step on abstract list")
+            lo = ip._slice_bound(key.start, n, True)
+            hi = ip._slice_bound(key.stop, n, False)
+            ln = z3.If(hi > lo, hi - lo, z3.IntVal(0))
+            return SSeq(z3.simplify(z3.SubSeq(self.t, lo, ln)), self.elem_bytes)
+        i = to_z3int(key)
+        if not core.branch(z3.And(i >= -n, i < n)):
+            raise IndexError("list index out of range")
+        i = z3.simplify(z3.If(i < 0, i + n, i))
+        return self.elem(i)
+
+    def elem(self, i):
+        """i-th element as an uninterpreted function of (list, index): z3 answers `unknown` on regex goals over
+        seq.nth, and no contract here needs more than congruence"""
+        r = F_seq_elem(self.t, i)
+        if self.elem_bytes:
+            core.cur().add(z3.InRe(r, z3.Star(z3.Range(strval("\x00"), strval("\xff")))))
+        return mkstr(r, self.elem_bytes)
+
+    def __pyvc_iadd__(self, ip, val):
+        return self.__pyvc_binop__(ip, None, val, False)
+
+    def __pyvc_binop__(self, ip, op, other, reflected):
+        import ast as _ast
+        if op is not None and not isinstance(op, _ast.Add):
+            raise Unsupported("operator on abstract list")
+        if isinstance(other, SSeq):
+            parts = [other.t, self.t] if reflected else [self.t, other.t]
+            return SSeq(z3.Concat(*parts), self.elem_bytes)
+        if not isinstance(other, list):
+            raise TypeError("can only concatenate list to list")
+        units = []
+        for x in other:
+            if not is_strlike(x) or is_bytes(x) != self.elem_bytes:
+                raise Unsupported("abstract list of %s extended with %r" % ("bytes" if self.elem_bytes else "str", x))
+            units.append(z3.Unit(to_z3str(x)))
+        if not units:
+            return self
+        parts = units + [self.t] if reflected else [self.t] + units
+        return SSeq(z3.Concat(*parts), self.elem_bytes)
+
+    def __pyvc_contains__(self, ip, x):
+        if not is_strlike(x) or is_bytes(x) != self.elem_bytes:
+            return False
+        return mkbool(z3.Contains(self.t, z3.Unit(to_z3str(x))))
+
+    def map_decode_utf8(self):
+        if not self.elem_bytes:
+            raise AttributeError("'str' object has no attribute 'decode'")
+        p = core.cur()
+        if not core.branch(F_all_utf8ok(self.t)):
+            raise UnicodeDecodeError("utf-8", b"", 0, 1, "symbolic invalid utf-8 in a list element")
+        r = F_map_utf8dec(self.t)
+        p.add(z3.Length(r) == z3.Length(self.t))
+        return SSeq(r, False)
+
+    def joined(self, sep):
+        key = ("b:" if self.elem_bytes else "s:") + (sep.decode("latin-1") if isinstance(sep, bytes) else sep)
+        F = _JOIN_FUNCS.get(key)
+        if F is None:
+            F = _JOIN_FUNCS[key] = z3.Function("py_join_%s" % "".join("%02x" % ord(c) for c in key), SEQ_STR, _S)
+        return SStr(F(self.t), self.elem_bytes)
+
+
+def s_splitlines(x):
+    if isinstance(x, (str, bytes)):
+        return x.splitlines()
+    r = F_splitlines(x.t)
+    p = core.cur()
+    p.add((z3.Length(r) == 0) == (z3.Length(x.t) == 0))
+    p.add(z3.Length(r) <= z3.Length(x.t))
+    return SSeq(r, x.isbytes)
